@@ -27,7 +27,7 @@ CONCRETE = {
 }
 
 
-def shapes(P, in_class):
+def shapes(P, in_class, member='Value'):
     """label -> type spec using parameter spelling P."""
     V, M = 'V', 'M'
     s = {
@@ -41,10 +41,10 @@ def shapes(P, in_class):
         'M<K,P>': T(M, t=[T('Key'), T(P)]),
         'V<V<P>>': T(V, t=[T(V, t=[T(P)])]),
         'V<M<K,V<P>>>': T(V, t=[T(M, t=[T('Key'), T(V, t=[T(P)])])]),
-        'P::Value': T(P + '::Value'),
-        'const P::Value&': T(P + '::Value', 1, '&'),
-        'P::Sub::Value': T(P + '::Sub::Value'),
-        'V<P::Value>': T(V, t=[T(P + '::Value')]),
+        'P::Value': T(P + '::' + member),
+        'const P::Value&': T(P + '::' + member, 1, '&'),
+        'P::Sub::Value': T(P + '::Sub::' + member),
+        'V<P::Value>': T(V, t=[T(P + '::' + member)]),
         # look-alikes that are not the parameter and must stay untouched
         'PP(lookalike)': T(P + P),
         'XP(lookalike)': T('X' + P),
@@ -53,6 +53,10 @@ def shapes(P, in_class):
         'ns::XP(lookalike)': T('ns::X' + P),
         'P::PP(scoped+lookalike)': T(P + '::' + P + P),
     }
+    for c, m in ((1, ''), (0, '&'), (1, '*'), (1, '@')):
+        s['%sP%s' % ('const ' if c else '', m)] = T(P, c, m)
+        s['%sV<P>%s' % ('const ' if c else '', m)] = T(V, c, m, [T(P)])
+    s['V<const P@>'] = T(V, t=[T(P, 1, '@')])
     if in_class:
         s.update({
             'This': T('This'),
@@ -68,7 +72,10 @@ def build_module(shape_label, P, conc_label, second_shape=None):
     conc = CONCRETE[conc_label]
     Q = 'UU' if P != 'UU' else 'WW'       # method-level parameter spelling
     S = shapes(P, True)[shape_label]
-    S2 = shapes(Q, True)[shape_label] if shape_label in shapes(Q, True) else S
+    # the member name after a method-level parameter must not itself be the class-level parameter's
+    # spelling (UU::Value with a parameter called Value is ambiguous in the dialect)
+    qmember = 'Item' if P == 'Value' else 'Value'
+    S2 = shapes(Q, True, qmember)[shape_label]
     other = T('ns::Other', 1, '&')
     if second_shape:
         other = shapes(P, True)[second_shape]
@@ -95,7 +102,7 @@ def build_module(shape_label, P, conc_label, second_shape=None):
     if not this_shape:
         mod[0]['c'].append(D.func(single(S), 'fn', [arg(S, 'a', '4'), arg(other, 'o')], tpl=[D.tparam(P, [conc])]))
         # two-parameter header: both parameters occur
-        Sq = shapes(Q, False)[shape_label]
+        Sq = shapes(Q, False, qmember)[shape_label]
         mod[0]['c'].append(D.func(single(Sq), 'fn2', [arg(S, 'a'), arg(Sq, 'b')],
                                   tpl=[D.tparam(P, [conc]), D.tparam(Q, [mconc, T('double')])]))
     return mod
